@@ -14,7 +14,7 @@ LEVEL = "exploration"
 
 RULE = ("all 62 type expressions of list depth 0..4 (every placement of `!`) x named type kind {Int, Float, String, Boolean, ID, "
         "custom scalar, enum, object, interface, union | input object} x position {response field, variable, input-object "
-        "field (with schema-level default values), variable of a second operation that re-declares every name with another expression, response field selected under @include / @skip, @oneOf member (nullable expressions only), object field whose interface declares "
+        "field (with schema-level default values), variable of a second operation that re-declares every name with another expression, response field selected under @include / @skip, member of a recursive input type (inside the one Box the cycle needs), every second object field deprecated; the SDL and JSON renderings also under `deprecated = allow` and under skip_serializing_none + normalization rust, @oneOf member (nullable expressions only), object field whose interface declares "
         "it without any `!` (selected on the object, on the interface, and on the object inside a variant)} x schema format {SDL, SDL that "
         "declares the built-in scalars, introspection JSON bare and data-wrapped with all built-in and meta types}; every emitted field / "
         "variant type is compared with rule(expr): `T!` -> inner, `[T]` -> Vec<..>, nullable -> Option<..>; built-in scalar "
@@ -87,7 +87,11 @@ def build_schema():
             return L(strip_all(t[1]))
         return t
     s.add("HolderI", {"kind": "interface", "fields": [dict(f, type=strip_all(f["type"])) for f in hf]})
+    # every second field of the object is deprecated (with and without a reason): deprecation is about the field, not its type
+    hf = [dict(f, deprecated=({"reason": None if i % 4 == 1 else "use something else", "block": False} if i % 2 == 1 else None)) for i, f in enumerate(hf)]
     s.add("Holder", {"kind": "object", "implements": ["HolderI"], "fields": hf})
+    # a recursive input type with a member of its own type under every type expression (every member sits on a cycle)
+    s.add("Tree", {"kind": "input", "one_of": False, "fields": [["t_%s" % (c or "p"), build_type(c, "Tree")] for c in exprs if not c.startswith("n")] + [["leaf", T("Int")]]})
     big, one = [], []
     for k, n in IN_KINDS.items():
         for c in exprs:
@@ -130,6 +134,7 @@ def build_doc(s, exprs):
         for c in exprs:
             vs.append({"name": "v_%s_%s" % (k, c or "p"), "type": build_type(c, n), "default": None})
     vs.append({"name": "big", "type": T("Big"), "default": None})
+    vs.append({"name": "tree", "type": T("Tree"), "default": None})
     vs.append({"name": "one", "type": T("One"), "default": None})
     # the interface's own (all-nullable) versions, under aliases g_<kind>_<code>, plus the object's again inside a variant (h_..)
     isel = [["typename"]]
@@ -172,6 +177,10 @@ def main(run):
         p = os.path.join(work, "schema_%s.%s" % (name.replace("-", "_"), ext))
         open(p, "w").write(text)
         reqs.append({"id": name, "schema_path": p, "query_text": doc_text, "options": {"mode": "cli"}, "want": ["inspect"]})
+        if name in ("sdl", "json"):
+            # Rust-side options that have nothing to do with type expressions: the rule is the same under each of them
+            reqs.append({"id": name + "+allow", "schema_path": p, "query_text": doc_text, "options": {"mode": "cli", "deprecation": "allow"}, "want": ["inspect"]})
+            reqs.append({"id": name + "+skip-none", "schema_path": p, "query_text": doc_text, "options": {"mode": "cli", "skip_none": True, "normalization": "rust"}, "want": ["inspect"]})
     resps = run_gendrv(reqs)
     by_code = {(c or "p"): build_type(c, "@") for c in exprs}
     for req, resp in zip(reqs, resps):
@@ -242,6 +251,26 @@ def main(run):
                 second = bool(it.get("path")) and it["path"][0] == "second"
                 if second and it["name"] != "Variables":
                     continue        # the second operation's response types repeat a part of the first's
+                if it["name"] == "Tree":
+                    # members of a recursive input type: the rule, inside the one `Box` the cycle needs
+                    for f in it["fields"]:
+                        m = re.match(r"^t_([lnp]+)$", f["key"] or "")
+                        if not m:
+                            continue
+                        code = m.group(1)
+                        ty = f["type"].replace(" ", "")
+                        inner = ty[4:-1] if ty.startswith("Box<") and ty.endswith(">") else ty
+                        shape, basename = strip_base(inner)
+                        exp = rule(by_code[code])
+                        run.evaluated()
+                        run.count("%s:t" % fmt)
+                        if shape.replace("Box<@>", "@") == exp and basename == "Tree":
+                            run.held()
+                            run.nontrivial(fmt, "tree", code)
+                        else:
+                            run.violation({"id": "%s-tree-%s" % (fmt, code), "corpus": "clean", "schema_format": fmt, "field": f["key"], "graphql_type": render_type(build_type("" if code == "p" else code, "Tree"))},
+                                          "type-mismatch at recursive input member %s: emitted %s, rule gives %s of Tree (inside one Box)" % (f["key"], f["type"], exp))
+                    continue
                 for f in it["fields"]:
                     check(pos, f["key"] or "", f["type"], second=second)
             elif it["kind"] == "enum" and it["name"] == "One" and not (it.get("path") and it["path"][0] == "second"):
